@@ -492,6 +492,514 @@ theorem maxGroupUsage_ge_acc (us : List Nat) (outer fuel acc : Nat) :
     | nil => simp
     | cons u us' => exact le_trans (le_max_left _ _) (ih _ _)
 
+
+/-! ## deepening: more split_shape / subset_array / schedule facts -/
+
+/-- tile starts are monotone in the tile number: tiles are ordered along the axis -/
+theorem tileStart_mono (N k j j' : Nat) (h : j ≤ j') : tileStart N k j ≤ tileStart N k j' := by
+  unfold tileStart
+  have := Nat.mul_le_mul_right (tileLen N k) h
+  omega
+
+/-- two tiles of one axis are either the same box or strictly ordered by their start -/
+theorem tile_eq_or_ordered (N k j j' : Nat) (h : j ≤ j') :
+    tile N k j = tile N k j' ∨ (tile N k j).1 < (tile N k j').1 := by
+  have hm := tileStart_mono N k j j' h
+  simp only [tile]
+  rcases Nat.eq_or_lt_of_le hm with e | e
+  · left; rw [e]
+  · right; exact e
+
+/-- the first tile starts at the origin of the axis -/
+theorem tile_first (N k : Nat) : (tile N k 0).1 = 0 := by
+  simp [tile, tileStart]
+
+/-- the last tile ends at the end of the axis -/
+theorem tile_last (N k : Nat) (hk : 0 < k) (hN : 0 < N) : (tile N k (k - 1)).2 = N := by
+  have h1 := cdiv_le N k hk hN
+  have h2 := mul_cdiv_ge N k hk
+  have e : k * cdiv N k = (k - 1) * cdiv N k + cdiv N k := by
+    obtain ⟨k', rfl⟩ : ∃ k', k = k' + 1 := ⟨k - 1, by omega⟩
+    simp; ring
+  simp only [tile, tileStart, tileLen]
+  omega
+
+/-- one part per axis (also for a missing / zero split count): the single tile is the whole axis -/
+theorem splitAxis_one (N : Nat) : splitAxis N 1 = [(0, N)] ∧ splitAxis N 0 = [(0, N)] := by
+  simp [splitAxis, tile, tileStart, tileLen, cdiv]
+
+/-- at least as many parts as voxels: the common tile extent is one voxel -/
+theorem tileLen_of_ge (N k : Nat) (hN : 0 < N) (hk : N ≤ k) : tileLen N k = 1 := by
+  unfold tileLen cdiv
+  apply Nat.div_eq_of_lt_le <;> omega
+
+/-- … so every tile of such a split is a single voxel -/
+theorem splitAxis_ge_single_voxel (N k : Nat) (hN : 0 < N) (hk : N ≤ k) (t : Nat × Nat)
+    (ht : t ∈ splitAxis N k) : t.2 = t.1 + 1 ∧ t.1 < N := by
+  obtain ⟨j, _, rfl⟩ := (mem_splitAxis N k t).mp ht
+  have hb := tile_in_bounds N (max k 1) j (by omega) hN
+  have hl := tileLen_of_ge N (max k 1) hN (by omega)
+  omega
+
+/-- voxel count of every tile of the n-D split = product of the per-axis extents `⌈N/k⌉` -/
+theorem splitShape_tile_volume (shape splits : List Nat) (h : shape.length = splits.length)
+    (hpos : ∀ n ∈ shape, 0 < n) (t : List (Nat × Nat)) (ht : t ∈ splitShape shape splits) :
+    prodL (t.map (fun r => r.2 - r.1)) =
+      prodL (List.zipWith (fun N k => tileLen N (max k 1)) shape splits) := by
+  have hok := splitShape_tiles_ok shape splits h hpos t ht
+  clear ht
+  induction shape generalizing splits t with
+  | nil =>
+    cases splits with
+    | nil => cases hok; rfl
+    | cons => simp at h
+  | cons s ss ih =>
+    cases splits with
+    | nil => simp at h
+    | cons k ks =>
+      simp only [List.zip_cons_cons] at hok
+      cases hok with
+      | cons ha hr =>
+        simp only [List.map_cons, List.zipWith_cons_cons, prodL]
+        rw [ih ks (by simpa using h) (fun n hn => hpos n (List.mem_cons_of_mem _ hn)) _ hr, ha.2.2]
+
+/-- in-tile coordinates from a covering box: `start + j = voxel`, `j` inside the tile, per axis -/
+theorem cover_to_local : ∀ (t : List (Nat × Nat)) (idx : List Nat),
+    List.Forall₂ (fun (r : Nat × Nat) (i : Nat) => r.1 ≤ i ∧ i < r.2) t idx →
+    ∃ js : List Nat, List.Forall₂ (fun (r : Nat × Nat) (j : Nat) => j < r.2 - r.1) t js ∧
+      List.zipWith (fun (r : Nat × Nat) (j : Nat) => r.1 + j) t js = idx := by
+  intro t idx hc
+  induction hc with
+  | nil => exact ⟨[], List.Forall₂.nil, rfl⟩
+  | @cons r i rs is h _ ih =>
+    obtain ⟨js, h1, h2⟩ := ih
+    refine ⟨(i - r.1) :: js, List.Forall₂.cons (by omega) h1, ?_⟩
+    simp only [List.zipWith_cons_cons, h2]
+    congr 1; omega
+
+/-- reassembly in n dimensions (offset clause): every voxel of the shape is `offset + j` for some tile
+of the split and an in-tile index `j` -/
+theorem splitShape_reassemble (shape splits idx : List Nat) (h : shape.length = splits.length)
+    (hidx : inShape shape idx = true) :
+    ∃ t ∈ splitShape shape splits, ∃ js : List Nat,
+      List.Forall₂ (fun (r : Nat × Nat) (j : Nat) => j < r.2 - r.1) t js ∧
+      List.zipWith (fun (r : Nat × Nat) (j : Nat) => r.1 + j) t js = idx := by
+  obtain ⟨t, ht, hc⟩ := splitShape_covers shape splits idx h hidx
+  exact ⟨t, ht, cover_to_local t idx hc⟩
+
+
+/-- real neighbours where they exist: a tile whose margin fits inside the volume mirrors nothing and
+extracts exactly `[start - left, stop + left)` -/
+theorem tileAxis_interior (N start stop p : Nat) (h1 : start ≤ stop) (h2 : stop ≤ N)
+    (hlo : (p + p % 2) / 2 ≤ start) (hhi : stop + (p + p % 2) / 2 ≤ N) :
+    let t := tileAxis N start stop p
+    t.padLo = 0 ∧ t.padHi = 0 ∧ t.arrStart = start - (p + p % 2) / 2 ∧
+    t.arrStop = stop + (p + p % 2) / 2 := by
+  simp only [tileAxis]; omega
+
+/-- mirrored voxels appear only at a volume edge: a low pad means the extraction starts at voxel 0,
+a high pad means it ends at voxel `N` -/
+theorem tileAxis_pad_only_at_edge (N start stop p : Nat) (h1 : start ≤ stop) (h2 : stop ≤ N) :
+    let t := tileAxis N start stop p
+    (0 < t.padLo → t.arrStart = 0) ∧ (0 < t.padHi → t.arrStop = N) := by
+  simp only [tileAxis]; omega
+
+/-- without margin the tile is the addressed range itself: position `q` holds voxel `start + q` -/
+theorem tileAxis_no_margin (N start stop q : Nat) (h1 : start < stop) (h2 : stop ≤ N)
+    (hq : q < stop - start) :
+    (tileAxis N start stop 0).extent = stop - start ∧ (tileAxis N start stop 0).src q = start + q := by
+  have he := tileAxis_extent N start stop 0 (by omega) h2
+  have hs := tileAxis_src_real N start stop 0 q h1 h2 ((start : Int) + q) (by simp) (by omega)
+    (by rw [he]; omega)
+  constructor
+  · simpa using he
+  · exact_mod_cast hs
+
+/-- the margin requested by `target_padding` is even and at most the template extent -/
+theorem targetPadding_even_le (m : Nat) : targetPadding m % 2 = 0 ∧ targetPadding m ≤ m ∧
+    m ≤ targetPadding m + 1 := by
+  unfold targetPadding; omega
+
+/-- every core assignment uses positive core counts, none exceeding `max_cores` -/
+theorem coreAssignments_bounds (maxCores : Nat) (oo : Bool) (io : Nat × Nat) (hm : 0 < maxCores)
+    (h : io ∈ coreAssignments maxCores oo) :
+    0 < io.1 ∧ io.1 ≤ maxCores ∧ 0 < io.2 ∧ io.2 ≤ maxCores := by
+  have hp := coreAssignments_prod maxCores oo io h
+  have h1 : 0 < io.1 := Nat.pos_of_ne_zero (by rintro e; rw [e] at hp; omega)
+  have h2 : 0 < io.2 := Nat.pos_of_ne_zero (by rintro e; rw [e] at hp; omega)
+  refine ⟨h1, ?_, h2, ?_⟩
+  · exact Nat.le_of_dvd hm ⟨_, hp.symm⟩
+  · exact Nat.le_of_dvd hm ⟨_, by rw [Nat.mul_comm]; exact hp.symm⟩
+
+/-- `analyzer_method == "MaxScoreOverRotations"`-style outer-only mode: one core per tile -/
+theorem coreAssignments_onlyOuter (maxCores : Nat) : coreAssignments maxCores true = [(1, maxCores)] := by
+  simp [coreAssignments]
+
+/-- the two extreme assignments (all cores inside one tile / one core per tile) are always tried -/
+theorem coreAssignments_extremes (maxCores : Nat) (hm : 0 < maxCores) :
+    (1, maxCores) ∈ coreAssignments maxCores false ∧ (maxCores, 1) ∈ coreAssignments maxCores false := by
+  have hs : 0 < Nat.sqrt maxCores := Nat.sqrt_pos.mpr hm
+  simp only [coreAssignments, Bool.false_eq_true, if_false, List.mem_flatMap, List.mem_range]
+  constructor
+  · exact ⟨0, hs, by simp [Nat.mod_one]⟩
+  · exact ⟨0, hs, by simp [Nat.mod_one]⟩
+
+/-- the assignment list is symmetric: with `(inner, outer)` also `(outer, inner)` is tried -/
+theorem coreAssignments_symm (maxCores a b : Nat) (h : (a, b) ∈ coreAssignments maxCores false) :
+    (b, a) ∈ coreAssignments maxCores false := by
+  simp only [coreAssignments, Bool.false_eq_true, if_false, List.mem_flatMap, List.mem_range] at h ⊢
+  obtain ⟨i0, hi, hmem⟩ := h
+  refine ⟨i0, hi, ?_⟩
+  split at hmem
+  · rename_i hd
+    rw [if_pos hd]
+    simp only [List.mem_cons, Prod.mk.injEq, List.not_mem_nil, or_false] at hmem ⊢
+    rcases hmem with ⟨rfl, rfl⟩ | ⟨rfl, rfl⟩
+    · right; exact ⟨rfl, rfl⟩
+    · left; exact ⟨rfl, rfl⟩
+  · simp at hmem
+
+/-- the peak group estimate is monotone in the running maximum -/
+theorem maxGroupUsage_mono_acc (us : List Nat) (outer fuel acc acc' : Nat) (h : acc ≤ acc') :
+    maxGroupUsage us outer fuel acc ≤ maxGroupUsage us outer fuel acc' := by
+  induction fuel generalizing us acc acc' with
+  | zero => simpa [maxGroupUsage] using h
+  | succ f ih =>
+    unfold maxGroupUsage
+    cases us with
+    | nil => simpa using h
+    | cons u us' => exact ih _ _ _ (by omega)
+
+/-- the peak dominates the first group of concurrent tiles -/
+theorem maxGroupUsage_ge_first (us : List Nat) (outer fuel acc : Nat) (hne : us ≠ []) :
+    (us.take outer).foldl (· + ·) 0 ≤ maxGroupUsage us outer (fuel + 1) acc := by
+  unfold maxGroupUsage
+  cases us with
+  | nil => exact absurd rfl hne
+  | cons u us' => exact le_trans (le_max_right _ _) (maxGroupUsage_ge_acc _ _ _ _)
+
+/-- lexicographic order `(n_splits, inits)` used by `lexsort` -/
+def candLe (c x : Cand) : Prop :=
+  c.nSplits < x.nSplits ∨ (c.nSplits = x.nSplits ∧ c.inits ≤ x.inits)
+
+theorem foldl_pick_le : ∀ (ys : List Cand) (b : Cand),
+    candLe (ys.foldl (fun b x =>
+      if x.nSplits < b.nSplits ∨ (x.nSplits = b.nSplits ∧ x.inits < b.inits) then x else b) b) b ∧
+    ∀ y ∈ ys, candLe (ys.foldl (fun b x =>
+      if x.nSplits < b.nSplits ∨ (x.nSplits = b.nSplits ∧ x.inits < b.inits) then x else b) b) y
+  | [], b => by simp [candLe]
+  | y :: ys, b => by
+    simp only [List.foldl_cons, List.mem_cons]
+    have ih := foldl_pick_le ys (if y.nSplits < b.nSplits ∨ (y.nSplits = b.nSplits ∧ y.inits < b.inits) then y else b)
+    generalize List.foldl _ _ ys = r at ih ⊢
+    obtain ⟨i1, i2⟩ := ih
+    unfold candLe at *
+    split at i1
+    · refine ⟨by omega, ?_⟩
+      rintro z (rfl | hz)
+      · omega
+      · exact i2 z hz
+    · refine ⟨by omega, ?_⟩
+      rintro z (rfl | hz)
+      · omega
+      · exact i2 z hz
+
+/-- the selected schedule is minimal for `(n_splits, inits)` among all candidates -/
+theorem pickBest_minimal (l : List Cand) (c : Cand) (h : pickBest l = some c) :
+    ∀ x ∈ l, candLe c x := by
+  cases l with
+  | nil => simp [pickBest] at h
+  | cons a as =>
+    simp only [pickBest, Option.some.injEq] at h
+    subst h
+    have := foldl_pick_le as a
+    intro x hx
+    rcases List.mem_cons.mp hx with rfl | hx
+    · exact this.1
+    · exact this.2 x hx
+
+/-- **Schedule optimality**: the returned schedule is one of the admissible candidates of the search and
+no admissible candidate has fewer tiles, or as many tiles with fewer job initialisations -/
+theorem schedule_minimal (P : Problem) (fa fi : Nat) (c : Cand) (h : schedule P fa fi = some c) :
+    c ∈ searchLoop P (P.maxSplits + 2) (List.replicate P.ndim 1) fa fi 0 [] ∧
+    ∀ x ∈ searchLoop P (P.maxSplits + 2) (List.replicate P.ndim 1) fa fi 0 [], candLe c x :=
+  ⟨pickBest_mem _ _ h, pickBest_minimal _ _ h⟩
+
+/-- candidates record `inits = n_splits / outer` and the tile count of their split vector -/
+theorem candsFor_fields (P : Problem) (factor : List Nat) (c : Cand) (h : c ∈ candsFor P factor) :
+    c.splits = factor ∧ c.nSplits = prodL factor ∧ c.inits = prodL factor / c.outer := by
+  unfold candsFor at h
+  simp only [List.mem_filterMap] at h
+  obtain ⟨⟨inner, outer⟩, _, hsome⟩ := h
+  simp only at hsome
+  split at hsome
+  · simp at hsome
+  · split at hsome
+    · simp at hsome; subst hsome; exact ⟨rfl, rfl, rfl⟩
+    · simp at hsome
+
+
+/-- start of the last tile: the axis end minus the common extent -/
+theorem tileStart_last (N k : Nat) (hk : 0 < k) (hN : 0 < N) : tileStart N k (k - 1) = N - tileLen N k := by
+  have h := tile_last N k hk hN
+  have h1 := cdiv_le N k hk hN
+  simp only [tile, tileStart, tileLen] at h ⊢
+  omega
+
+/-- tiles on the regular grid start at `j·⌈N/k⌉`; every tile that would leave the axis is shifted back
+and coincides with the last tile (these are the duplicates of an over-split axis) -/
+theorem tile_regular_or_last (N k j : Nat) (hk : 0 < k) (hN : 0 < N) :
+    (tile N k j).1 = j * tileLen N k ∨ tile N k j = tile N k (k - 1) := by
+  have hl := tileStart_last N k hk hN
+  by_cases hc : j * tileLen N k ≤ N - tileLen N k
+  · left; simp only [tile, tileStart]; omega
+  · right
+    have : tileStart N k j = N - tileLen N k := by unfold tileStart; omega
+    simp only [tile, this, hl]
+
+theorem maxGroupUsage_nil (outer fuel acc : Nat) : maxGroupUsage [] outer fuel acc = acc := by
+  cases fuel <;> simp [maxGroupUsage]
+
+/-- all tiles concurrent (`outer ≥` number of tiles): the estimate is the sum over all tiles -/
+theorem maxGroupUsage_all_concurrent (us : List Nat) (outer fuel : Nat) (hne : us ≠ [])
+    (ho : us.length ≤ outer) :
+    maxGroupUsage us outer (fuel + 1) 0 = us.foldl (· + ·) 0 := by
+  unfold maxGroupUsage
+  cases us with
+  | nil => exact absurd rfl hne
+  | cons u us' =>
+    simp only
+    rw [List.take_of_length_le ho, List.drop_eq_nil_of_le (by omega), maxGroupUsage_nil]
+    omega
+
+/-- the peak dominates *every* group of concurrent tiles (group `i` = tiles `i·outer … i·outer+outer-1`) -/
+theorem maxGroupUsage_ge_group (i : Nat) : ∀ (us : List Nat) (outer fuel acc : Nat), i < fuel →
+    us.drop (i * max outer 1) ≠ [] →
+    ((us.drop (i * max outer 1)).take outer).foldl (· + ·) 0 ≤ maxGroupUsage us outer fuel acc := by
+  induction i with
+  | zero =>
+    intro us outer fuel acc hf hne
+    obtain ⟨f, rfl⟩ : ∃ f, fuel = f + 1 := ⟨fuel - 1, by omega⟩
+    simp only [Nat.zero_mul, List.drop_zero] at hne ⊢
+    exact maxGroupUsage_ge_first us outer f acc hne
+  | succ i ih =>
+    intro us outer fuel acc hf hne
+    obtain ⟨f, rfl⟩ : ∃ f, fuel = f + 1 := ⟨fuel - 1, by omega⟩
+    have e : us.drop ((i + 1) * max outer 1) = (us.drop (max outer 1)).drop (i * max outer 1) := by
+      rw [List.drop_drop]; congr 1; ring
+    rw [e] at hne ⊢
+    unfold maxGroupUsage
+    cases us with
+    | nil => simp at hne
+    | cons u us' => exact ih _ outer f _ (by omega) hne
+
+/-- candidates already collected are kept by the search -/
+theorem searchLoop_keeps (P : Problem) (fuel : Nat) (factor : List Nat) (ax ai np : Nat) (acc : List Cand) :
+    ∀ c ∈ acc, c ∈ searchLoop P fuel factor ax ai np acc := by
+  induction fuel generalizing factor ax ai np acc with
+  | zero => intro c hc; simpa [searchLoop] using hc
+  | succ f ih =>
+    intro c hc
+    unfold searchLoop
+    split
+    · exact hc
+    · exact ih _ _ _ _ _ c (List.mem_append_left _ hc)
+
+theorem prodL_replicate_one (n : Nat) : prodL (List.replicate n 1) = 1 := by
+  induction n with
+  | zero => rfl
+  | succ n ih => simp [List.replicate_succ, prodL, ih]
+
+/-- the unsplit problem is always examined first: if some core assignment fits the limit without
+splitting, a schedule is returned and it does not split (`n_splits = 1`) -/
+theorem schedule_unsplit_preferred (P : Problem) (fa fi : Nat) (x : Cand)
+    (hx : x ∈ candsFor P (List.replicate P.ndim 1)) :
+    ∃ c, schedule P fa fi = some c ∧ c.nSplits ≤ 1 := by
+  have hmem : x ∈ searchLoop P (P.maxSplits + 2) (List.replicate P.ndim 1) fa fi 0 [] := by
+    rw [show P.maxSplits + 2 = (P.maxSplits + 1) + 1 from rfl]
+    unfold searchLoop
+    rw [if_neg (by omega)]
+    exact searchLoop_keeps _ _ _ _ _ _ _ x (by simpa using hx)
+  cases hs : schedule P fa fi with
+  | none =>
+    rw [schedule_none_iff] at hs
+    rw [hs] at hmem; simp at hmem
+  | some c =>
+    refine ⟨c, rfl, ?_⟩
+    have hmin := (schedule_minimal P fa fi c hs).2 x hmem
+    have hf := candsFor_fields P _ x hx
+    rw [prodL_replicate_one] at hf
+    unfold candLe at hmin
+    omega
+
+/-- one part along every axis: the only tile is the whole shape -/
+theorem splitShape_unsplit (shape : List Nat) :
+    splitShape shape (List.replicate shape.length 1) = [shape.map (fun n => (0, n))] := by
+  unfold splitShape
+  induction shape with
+  | nil => rfl
+  | cons s ss ih =>
+    simp only [List.length_cons, List.replicate_succ, List.zipWith_cons_cons, productL, ih,
+      (splitAxis_one s).1]
+    simp
+
+
+/-- generic invariant of the search: whatever holds for the candidates of every split vector holds for
+everything the search returns -/
+theorem searchLoop_all (P : Problem) (Q : Cand → Prop)
+    (hQ : ∀ factor c, c ∈ candsFor P factor → Q c) (fuel : Nat) (factor : List Nat) (ax ai np : Nat)
+    (acc : List Cand) (hacc : ∀ c ∈ acc, Q c) : ∀ c ∈ searchLoop P fuel factor ax ai np acc, Q c := by
+  induction fuel generalizing factor ax ai np acc with
+  | zero => simpa [searchLoop] using hacc
+  | succ f ih =>
+    unfold searchLoop
+    split
+    · exact hacc
+    · apply ih
+      intro c hc
+      rcases List.mem_append.mp hc with h | h
+      · exact hacc c h
+      · exact hQ factor c h
+
+/-- the job count of a schedule: `inits = n_splits // outer`, at least one round, and the rounds of
+`outer` concurrent tiles never exceed the tiles that exist -/
+theorem schedule_inits (P : Problem) (fa fi : Nat) (c : Cand) (hm : 0 < P.maxCores)
+    (h : schedule P fa fi = some c) :
+    c.inits = c.nSplits / c.outer ∧ 1 ≤ c.inits ∧ c.inits * c.outer ≤ c.nSplits := by
+  have hmem := pickBest_mem _ _ h
+  have hf := searchLoop_all P (fun c => c.nSplits = prodL c.splits ∧ c.inits = c.nSplits / c.outer)
+    (fun factor c hc => by
+      have := candsFor_fields P factor c hc
+      rw [this.1, this.2.1, this.2.2]; exact ⟨rfl, rfl⟩) _ _ _ _ _ [] (by simp) c hmem
+  have hs := schedule_sound P fa fi c h
+  have ho : 0 < c.outer := Nat.pos_of_ne_zero (by rintro e; rw [e] at hs; omega)
+  obtain ⟨hn, hi⟩ := hf
+  have hle : c.outer ≤ c.nSplits := by rw [hn]; exact hs.2.1
+  refine ⟨hi, ?_, ?_⟩
+  · rw [hi]; exact Nat.div_pos hle ho
+  · rw [hi]; exact Nat.div_mul_le_self _ _
+
+theorem length_bump (l : List Nat) (ax : Nat) : (bump l ax).length = l.length := by
+  simp [bump]
+
+/-- the split vector of every candidate has one entry per dimension -/
+theorem searchLoop_splits_length (P : Problem) (fuel : Nat) (factor : List Nat) (ax ai np : Nat)
+    (acc : List Cand) (n : Nat) (hfac : factor.length = n) (hacc : ∀ c ∈ acc, c.splits.length = n) :
+    ∀ c ∈ searchLoop P fuel factor ax ai np acc, c.splits.length = n := by
+  induction fuel generalizing factor ax ai np acc with
+  | zero => simpa [searchLoop] using hacc
+  | succ f ih =>
+    unfold searchLoop
+    split
+    · exact hacc
+    · apply ih _ _ _ _ _ (by rw [length_bump]; exact hfac)
+      intro c hc
+      rcases List.mem_append.mp hc with h | h
+      · exact hacc c h
+      · rw [(candsFor_fields P factor c h).1]; exact hfac
+
+/-- a returned schedule gives a split count for each of the `ndim` axes -/
+theorem schedule_splits_length (P : Problem) (fa fi : Nat) (c : Cand) (h : schedule P fa fi = some c) :
+    c.splits.length = P.ndim :=
+  searchLoop_splits_length P _ _ _ _ _ [] P.ndim (by simp) (by simp) c (pickBest_mem _ _ h)
+
+/-! ### memory estimate -/
+
+/-- `estimate_ram_usage` fails exactly for an unregistered score -/
+theorem estimateRam_none_iff (s1 s2 : List Nat) (method : String) (nc : Nat) (an be : Option String)
+    (fb cb : Nat) : estimateRam s1 s2 method nc an be fb cb = none ↔ lookupMem method = none := by
+  unfold estimateRam
+  cases lookupMem method <;> simp
+
+/-- the per-class usage grows with the number of cores (`base + per_fork · ncores`) -/
+theorem usage_mono_cores (c : MemCoef) (real cplx fb cb n n' : Nat) (h : n ≤ n') :
+    usage c real cplx fb cb n ≤ usage c real cplx fb cb n' := by
+  unfold usage
+  exact Nat.add_le_add_left (Nat.mul_le_mul_left _ h) _
+
+/-- … and so does the whole estimate: more inner cores never lower the estimated memory -/
+theorem estimateRam_mono_cores (s1 s2 : List Nat) (method : String) (n n' : Nat) (an be : Option String)
+    (fb cb a b : Nat) (h : n ≤ n')
+    (ha : estimateRam s1 s2 method n an be fb cb = some a)
+    (hb : estimateRam s1 s2 method n' an be fb cb = some b) : a ≤ b := by
+  unfold estimateRam at ha hb
+  cases hl : lookupMem method with
+  | none => rw [hl] at ha; simp at ha
+  | some c =>
+    rw [hl] at ha hb
+    simp only [Option.some.injEq] at ha hb
+    subst ha hb
+    refine Nat.add_le_add (Nat.add_le_add (usage_mono_cores _ _ _ _ _ _ _ h) ?_) ?_
+    · cases an.bind lookupMem with
+      | none => simp
+      | some c' => exact usage_mono_cores _ _ _ _ _ _ _ h
+    · cases be.bind lookupMem with
+      | none => simp
+      | some c' => exact usage_mono_cores _ _ _ _ _ _ _ h
+
+theorem nextFastFrom_ge (f n : Nat) : n ≤ nextFastFrom f n := by
+  induction f generalizing n with
+  | zero => simp [nextFastFrom]
+  | succ f ih =>
+    unfold nextFastFrom
+    split
+    · exact Nat.le_refl _
+    · exact Nat.le_trans (Nat.le_succ n) (ih (n + 1))
+
+/-- the FFT-friendly length used by the estimate is never below the convolution length -/
+theorem nextFastLen_ge (n : Nat) : n ≤ nextFastLen n := by
+  unfold nextFastLen
+  split
+  · omega
+  · exact nextFastFrom_ge _ _
+
+
+/-- tiles on the regular grid have strictly increasing starts (they are pairwise distinct) -/
+theorem tileStart_strict_regular (N k j j' : Nat) (hk : 0 < k) (hN : 0 < N) (h : j < j')
+    (hreg : j' * tileLen N k ≤ N - tileLen N k) : tileStart N k j < tileStart N k j' := by
+  have hL : 0 < tileLen N k := cdiv_pos N k hk hN
+  have : j * tileLen N k < j' * tileLen N k := Nat.mul_lt_mul_of_pos_right h hL
+  unfold tileStart
+  omega
+
+/-- consecutive tiles leave no gap: the next tile starts at or before the end of the current one -/
+theorem tile_no_gap (N k j : Nat) : (tile N k (j + 1)).1 ≤ (tile N k j).2 := by
+  have e : (j + 1) * tileLen N k = j * tileLen N k + tileLen N k := by ring
+  simp only [tile, tileStart]
+  omega
+
+/-- all padded tiles of one axis have the same extent `⌈N/k⌉ + 2·margin` (needed for `equal_shape`:
+one FFT plan serves every tile) -/
+theorem splitAxis_padded_extent (N k p : Nat) (hN : 0 < N) (t : Nat × Nat) (ht : t ∈ splitAxis N k) :
+    (tileAxis N t.1 t.2 p).extent = tileLen N (max k 1) + 2 * ((p + p % 2) / 2) := by
+  obtain ⟨j, _, rfl⟩ := (mem_splitAxis N k t).mp ht
+  have hb := tile_in_bounds N (max k 1) j (by omega) hN
+  rw [tileAxis_extent N _ _ p (by omega) hb.2.1, hb.2.2]
+
+/-- no cores allowed: no schedule exists -/
+theorem schedule_zero_cores (P : Problem) (fa fi : Nat) (h0 : P.maxCores = 0) (hoo : P.onlyOuter = false) :
+    schedule P fa fi = none := by
+  rw [schedule_none_iff]
+  have := searchLoop_all P (fun _ => False) (fun factor c hc => by
+    unfold candsFor at hc
+    simp [coreAssignments, h0, hoo] at hc) (P.maxSplits + 2) (List.replicate P.ndim 1) fa fi 0 [] (by simp)
+  exact List.eq_nil_iff_forall_not_mem.mpr (fun c hc => this c hc)
+
+/-- outer-only mode: the schedule runs `max_cores` tiles concurrently with one core each -/
+theorem schedule_onlyOuter (P : Problem) (fa fi : Nat) (c : Cand) (hoo : P.onlyOuter = true)
+    (h : schedule P fa fi = some c) : c.inner = 1 ∧ c.outer = P.maxCores := by
+  refine searchLoop_all P (fun c => c.inner = 1 ∧ c.outer = P.maxCores) (fun factor c hc => ?_)
+    _ _ _ _ _ [] (by simp) c (pickBest_mem _ _ h)
+  unfold candsFor at hc
+  simp only [List.mem_filterMap, hoo, coreAssignments_onlyOuter, List.mem_singleton] at hc
+  obtain ⟨io, rfl, hsome⟩ := hc
+  simp only at hsome
+  split at hsome
+  · simp at hsome
+  · split at hsome
+    · simp at hsome; subst hsome; exact ⟨rfl, rfl⟩
+    · simp at hsome
+
 /-! ## non-vacuity -/
 example : splitAxis 10 7 = [(0,2),(2,4),(4,6),(6,8),(8,10),(8,10),(8,10)] := by decide
 example : splitAxisOld 10 7 = [(0,2),(2,4),(4,6),(6,8),(8,10),(10,12),(8,10)] := by decide
@@ -499,5 +1007,19 @@ example : (splitShape [5,4] [2,2]).length = 4 := by decide
 example : ((tileAxis 10 0 4 4).src 0, (tileAxis 10 0 4 4).src 1, (tileAxis 10 0 4 4).src 2, (tileAxis 10 0 4 4).extent) = (2, 1, 0, 8) := by decide
 example : splitAxisU 10 7 = [(0,1),(1,2),(2,3),(3,4),(4,5),(5,6),(6,10)] := by decide
 example : coreAssignments 12 false = [(1,12),(12,1),(2,6),(6,2),(3,4),(4,3)] := by decide +kernel
+
+example : splitAxis 3 5 = [(0,1),(1,2),(2,3),(2,3),(2,3)] := by decide
+example : (4 : Nat) ≤ 6 ∧ 6 ≤ 10 ∧ (2 + 2 % 2) / 2 ≤ 4 ∧ 6 + (2 + 2 % 2) / 2 ≤ 10 := by decide
+example : ((tileAxis 10 4 6 2).arrStart, (tileAxis 10 4 6 2).arrStop, (tileAxis 10 4 6 2).padLo) = (3, 7, 0) := by decide
+example : maxGroupUsage [3, 4, 5] 2 4 0 = 7 ∧ maxGroupUsage [3, 4, 5] 3 4 0 = 12 := by decide
+example : (schedule ⟨1, fun _ => [[1]], fun _ _ => 0, 1, 10, 1, false, [0], 0⟩ 0 0).isSome = true := by
+  decide +kernel
+example : (candsFor ⟨1, fun _ => [[1]], fun _ _ => 0, 1, 10, 1, false, [0], 0⟩ [1]).length = 2 := by
+  decide +kernel
+
+example : estimateRam [4,4] [2,2] "CC" 1 none none 4 8 ≠ none ∧
+    estimateRam [4,4] [2,2] "nope" 1 none none 4 8 = none := by decide +kernel
+
+example : (1 : Nat) * tileLen 10 3 ≤ 10 - tileLen 10 3 := by decide
 
 end Pm.C14
